@@ -215,7 +215,7 @@ Fixpoint zero_val (T : table) (fuel : nat) (t : ty) : val :=
                   | Some sd => VStruct (map (fun fd => zero_val T f (f_ty fd)) (s_fields sd))
                   | None => VNil
                   end
-    | TOpaque n => VOpaque n "0"
+    | TOpaque n => if String.prefix "iface:" n then VNil else VOpaque n "0"   (* a nil interface / the zero of a leaf coder *)
     | _ => VNil
     end
   end.
